@@ -396,6 +396,19 @@ def check_entry(entry):
                 out.append(_viol(["C02", "C03"], "real_input_wrong", api, "float64 input: result differs from the matrix action (imaginary part dropped or mixed)"))
             if not np.array_equal(xr, xr0):
                 out.append(_viol(["C02"], "mutated", api, "real input mutated"))
+            # the same values in other memory layouts (Fortran order, strided view into a larger buffer): same result, inputs untouched
+            if n > 1:
+                xf = np.asfortranarray(x)
+                buf = np.zeros(tuple(2 * k_ for k_ in ish), dtype=x.dtype)
+                xs_ = buf[tuple(slice(1, None, 2) for _ in ish)]
+                xs_[...] = x
+                for lab, xv in (("Fortran-ordered", xf), ("strided", xs_)):
+                    xv0 = xv.copy()
+                    yv = np.asarray(A(xv)).ravel()
+                    if not np.allclose(yv, M @ x.ravel(), **tol):
+                        out.append(_viol(["C02"], "layout_dependent", api, "%s input: result differs from the matrix action" % lab))
+                    if not np.array_equal(xv, xv0):
+                        out.append(_viol(["C02"], "mutated", api, "%s input mutated" % lab))
         except Exception as e:
             out.append(_viol(["C02"], "reapply_raises", api, "re-application raised %r" % (e,)))
     return out
